@@ -1,4 +1,3 @@
 SPECIFICATION Spec
-INVARIANTS
-  NeedObserved
+INVARIANTS Emit
 CHECK_DEADLOCK FALSE
